@@ -7,6 +7,11 @@ dir=$(cd "$1" && pwd); sdir=$2; name=$(basename "$dir")
 export GOFLAGS=-mod=mod GOPROXY=off
 head=$(git -C /repo rev-parse --short HEAD)
 mkdir -p "$sdir"
+# (a status is reused for the same HEAD and the same patch text)
+sum=$(cat "$dir/patch.diff" | sha1sum | cut -c1-12)
+if [ -f "$sdir/$name.$head.status" ] && [ "$(cat "$sdir/$name.$head.sum" 2>/dev/null)" = "$sum" ]; then
+  echo "$name: suite=$(cat "$sdir/$name.$head.status") (cached)"; exit 0
+fi
 wt=$(mktemp -d /tmp/seedconfirm.XXXX)
 git -C /repo worktree add --detach "$wt" HEAD >/dev/null 2>&1
 suite="?"
@@ -17,4 +22,5 @@ if git -C "$wt" apply "$dir/patch.diff" 2>/dev/null; then
 else suite=noapply; fi
 git -C /repo worktree remove --force "$wt" >/dev/null 2>&1; rm -rf "$wt"
 echo "$suite" > "$sdir/$name.$head.status"
+echo "$sum" > "$sdir/$name.$head.sum"
 echo "$name: suite=$suite"
